@@ -25,6 +25,10 @@ CLAIMED = {
          "Seeded deterministic simulation of trees forced to contain multi-cause nodes, sent over routes of knowing and unknowing processes; per delivery: branch count/order/shape and branch texts, message tokens of every branch in %+v, Unwrap/UnwrapOnce nil at multi nodes, Is = self-match (reference model: identity, own Is method, mark equality) or some branch, IsAny = disjunction, As assigns the first node in reference depth-first branch order; at the origin Join drops nils and joins texts with newlines. Sampling, not proof.",
          "5/C13", "trusted: reference model of self-match and of the depth-first order; at unknowing processes texts are compared only for nodes whose text does not depend on how a multi-cause node renders (that is C04's subject)",
          "deterministic simulation: cluster simulation with per-delivery tree-semantics oracles against a reference model"),
+ "C05": ("fault_enumeration",
+         "Exhaustive enumeration, per decoder key read from the live registries, of payload faults x detail faults x message-type values x multi-cause children x carrier positions x leaf/wrapper form (one simulated delivery per case), plus seeded sequences of wire faults (payload/details/message type/hostile strings/family swap) and protobuf-level byte fuzz on valid generated messages; oracle: DecodeError returns non-nil without panicking and the result survives every verb (panics recovered by fmt are detected in the output), redaction, every accessor, report building and re-encoding. The enumerated part is complete for the stated product; the seeded part is sampling.",
+         "5/C05", "trusted: the exemplar table (one valid wire node per family, obtained by encoding real values) defines 'right payload type'; inputs that are not structurally complete (also inside payloads resolving to EncodedError) are discarded as the property's precondition says; gogo's global proto registry cannot be partitioned (DESIGN.md 8.3)",
+         "deterministic simulation with fault injection: exhaustive wire-fault enumeration per registered decoder + seeded fault sequences and byte fuzz through the simulated transport"),
 }
 
 NOT_APPLICABLE = {
